@@ -53,6 +53,7 @@ func c11(x *mon.Ctx) {
 				for _, z := range zs {
 					w := richHonest(x.Rand(fmt.Sprint("small-scalar", n)))
 					n++
+					w.Resign() // one shared collateral signer in these worlds
 					zr, zsv := z, 0
 					if which == "s" {
 						zr, zsv = 0, z
